@@ -263,6 +263,36 @@ func rewrite(src []byte, pkg string) ([]byte, []string, error) {
 			d.Body.List = append([]ast.Stmt{tick()}, d.Body.List...)
 		}
 	}
+	// vResetGlobals re-initialises every package-level variable of the runtime, so
+	// that an execution can start from the state of a freshly started process
+	// ("cold start": lazily built shared tables, pools, caches).
+	var reset bytes.Buffer
+	reset.WriteString("\n// vResetGlobals puts every package-level variable of the runtime back to its initial value.\nfunc vResetGlobals() {\n")
+	for _, d := range decls {
+		gd, ok := d.(*ast.GenDecl)
+		if !ok || gd.Tok != token.VAR {
+			continue
+		}
+		for _, sp := range gd.Specs {
+			vs := sp.(*ast.ValueSpec)
+			for i, nm := range vs.Names {
+				if nm.Name == "_" {
+					continue
+				}
+				switch {
+				case len(vs.Values) == len(vs.Names):
+					var eb bytes.Buffer
+					printer.Fprint(&eb, fset, vs.Values[i])
+					fmt.Fprintf(&reset, "\t%s = %s\n", nm.Name, eb.String())
+				case len(vs.Values) == 0 && vs.Type != nil:
+					var tb bytes.Buffer
+					printer.Fprint(&tb, fset, vs.Type)
+					fmt.Fprintf(&reset, "\t%s = *new(%s)\n", nm.Name, tb.String())
+				}
+			}
+		}
+	}
+	reset.WriteString("}\n")
 	f.Decls = decls
 	// drop comments attached to removed decls: keep only comments that lie
 	// inside kept declarations or before the first one.
@@ -281,5 +311,6 @@ func rewrite(src []byte, pkg string) ([]byte, []string, error) {
 	if err := (&printer.Config{Mode: printer.UseSpaces | printer.TabIndent, Tabwidth: 8}).Fprint(&buf, fset, f); err != nil {
 		return nil, nil, err
 	}
+	buf.Write(reset.Bytes())
 	return buf.Bytes(), types, nil
 }
